@@ -113,12 +113,12 @@ class Abs:
                 S[a[0]]["h"] = hs
                 self.popped[popped] = self.popped.get(popped, 0) + 1
         elif op in ("csp", "cspv"):
-            # create_suspend_point(fn): the coroutines fn made ready are held by the new suspend point (taken off the back
-            # of the ready queue: reverse order), nothing is resumed, the rest of the queue is untouched
+            # create_suspend_point(fn): the coroutines fn made ready are held by the new suspend point in the order they were made
+            # ready (/repo fix 34c6158; the pinned code reversed them), nothing is resumed, the rest of the queue is untouched
             first = 1 if op == "csp" else 2
             hs = a[first:]
             if not self.vacant(a[0]) or len(a) < first or any(not (0 <= h < NCOROS) for h in hs): return False, []
-            S[a[0]] = {"typed": op == "cspv", "val": a[1] if op == "cspv" else None, "h": hs[::-1]}
+            S[a[0]] = {"typed": op == "cspv", "val": a[1] if op == "cspv" else None, "h": list(hs)}
             for h in hs:
                 self.give(h)
         elif op == "clear":
